@@ -488,7 +488,11 @@ def check_batch_independence(ctx, offset=5, nl=None):
     nl = nl or ctx.n(18, 200)
     res = {'name': 'ray-independent-of-companions', 'n': 0, 'nontrivial': 0, 'samples': [], 'disagreements': [],
            'histogram': {'input_classes': ['mixed special+skew batches through trace_generic and trace',
-                                           'polarization on: batch-vs-alone of intensity and rays.p'],
+                                           'polarization on: batch-vs-alone of intensity and rays.p',
+                                           'every geometry class x exceptional ray classes (miss, behind, behind with '
+                                           'base sphere in front, backward, grazing, vertex, dead NaN) mixed with '
+                                           'ordinary rays',
+                                           'lenses whose figured surface crosses the stop plane / crossing faces / TIR'],
                          'closed_form_lenses': 0, 'newton_lenses': 0, 'worst_deviation_newton': 0.0, 'raised': 0,
                          'polarized_lenses': {}, 'modes': {'trace_generic': 0, 'trace': 0},
                          'unit_sites': c13.UNIT_SITES, 'unit_comparisons': 0}}
@@ -501,7 +505,20 @@ def check_batch_independence(ctx, offset=5, nl=None):
     for x in uv[:1]:
         res['disagreements'].append(dict({'kind': 'ray-depends-on-companions', 'level': x['site']}, **x,
                                          violates_property=True))
-    specs = _specs(ctx, rng, nl, ['polarized', 'plain', 'polarized', 'newton', 'coated', 'polarized', 'any', 'newton'])
+    # the clause on every geometry class, batches mixing ordinary rays with every class of exceptional ray
+    gv, gst, gcmp = c13.geometry_independence(rng, ctx.n(250, 2500))
+    h['geometry_sites'] = [k + '.distance' for k in c13.GEOMETRY_KINDS]
+    h['exceptional_ray_classes_per_geometry [compared, reported as miss when alone]'] = \
+        {k: {c: v for c, v in d.items() if v[0]} for k, d in gst.items()}
+    res['n'] += gcmp
+    res['nontrivial'] += gcmp
+    for x in gv[:1]:
+        res['disagreements'].append(dict({'kind': 'ray-depends-on-companions', 'level': x['site']}, **x,
+                                         violates_property=True))
+    exc = c13.exceptional_specs()
+    h['exceptional_lenses'] = {}
+    specs = exc + _specs(ctx, rng, nl, ['polarized', 'plain', 'polarized', 'newton', 'coated', 'polarized', 'any',
+                                        'newton'])
     for spec in specs:
         o = c13.build(spec)
         w = spec['wavelengths'][0][0]
@@ -514,13 +531,18 @@ def check_batch_independence(ctx, offset=5, nl=None):
         else:
             h['closed_form_lenses'] += 1
         for mode in ('trace_generic', 'trace'):
-            Hx, Hy, Px, Py = c13.gen_rays(rng, spec, ctx.n(8, 12), same_field=(mode == 'trace'))
+            if spec.get('name') and spec['variant'].startswith('exceptional'):
+                Hx, Hy, Px, Py = c13.fan_rays(rng, spec, 9)        # whole pupil: central zone AND the lost rim
+            else:
+                Hx, Hy, Px, Py = c13.gen_rays(rng, spec, ctx.n(8, 12), same_field=(mode == 'trace'))
             try:
                 viol, worst, n = c13.batch_independence(o, Hx, Hy, Px, Py, w, rng, subsets=2, mode=mode)
             except Exception:   # noqa
                 h['raised'] += 1
                 continue
             h['modes'][mode] += 1
+            if spec.get('name') and spec['variant'].startswith('exceptional'):
+                h['exceptional_lenses'][spec['name']] = h['exceptional_lenses'].get(spec['name'], 0) + n
             res['n'] += n
             res['nontrivial'] += n
             if c13.has_newton(o):
